@@ -436,8 +436,8 @@ func (I *skipInterp) eval(v ssa.Value, fr *frame, env *gEnv) gsum {
 					return gsym(fmt.Sprintf("W@%d", off.c))
 				}
 			}
-			if n := isBigEndianGet(cal); n == 4 {
-				arg := com.Args[1]
+			if n := isBigEndianGet(cal); n == 4 || (isWordReader(cal) && isByteSlice(com.Args[0].Type())) {
+				arg := com.Args[len(com.Args)-1]
 				off := int64(0)
 				if sl, ok := arg.(*ssa.Slice); ok {
 					if sl.Low != nil {
